@@ -73,3 +73,10 @@ CHECKS["C15"] = dict(
  text="Expression trees over logging leaves t(i) / r(i) (recursive leaf that re-enters the same code one frame deeper) / b(i) / o(i) and nodes E-E, E*E, string concatenation, E<E, f2..f4(E,..), obj.m(E,E), list literals, list literal + index, map literals, &&, ||, !, (O) or E: all trees of depth <=1 in six statement contexts (print, assignment, if / while condition, call argument, return); depth 2 by rule 1 with all leaf combinations, and with both children arbitrary for the roots -, &&, ||, or, !; depth-3 spines; thorough adds full binary depth 2 in two contexts, depth-3 rule 1 (1.17 M trees, capped) and depth-4 spines. Oracle: reference interpreter - the exact sequence of log lines (each leaf exactly once unless short-circuited) and the final value; disagreements are classified as order / evaluation-count / value.",
  note="Leaf values are kept small so no overflow occurs; a map literal is observed through its length only.",
  design_ref="DESIGN.md section 4, C15")
+
+CHECKS["C17"] = dict(
+ category="exploration",
+ technique="bounded exhaustive enumeration of (failure kind x call chain over 5 frame kinds x failing-statement position), each program executed by the real CLI with merged stdout/stderr",
+ text="19 failure kinds (assert, get of nil, field of nil, list/string index, remove, zero divisor of int/bigint/float/byte, % by 0, overflow in + * unary -, shift range, failed to_byte/to_int, substring range, missing map key) x all call chains of length 0..3 (quick) / 0..4 plus 5..6 over {function, method, callback} (thorough) over {plain function, closure, method, map callback, function of an imported module} x failing statement plain / in if / else / while / from. Oracle: exit status 1 (never 101/134), the fatal-run-time-error banner after all earlier output (observed through one merged pipe), no later statement executed, the printed trace (block pseudo-frames dropped) listing exactly the active functions innermost first down to the module, with labels learnt from the loaded bytecode (hook H3); a failed assert names file:line:col of that assert.",
+ note="Labels are learnt from make_function/store pairs and method names, not guessed. An imported-module frame can only be followed by a function or closure frame in the chain.",
+ design_ref="DESIGN.md section 4, C17")
